@@ -114,9 +114,9 @@ class FileResolver:
             ]
 
             # Collect gitignore specs for this directory (including ancestors)
-            gitignore_specs: list[pathspec.PathSpec] = []
+            gitignore_chain: list[tuple[Path, pathspec.PathSpec]] = []
             if self._config.respect_gitignore:
-                gitignore_specs = self._get_gitignore_chain(current, root)
+                gitignore_chain = self._get_gitignore_chain(current, root)
 
             # Yield files matching include patterns (applying gitignore + tool ignore)
             for filename in filenames:
@@ -125,7 +125,7 @@ class FileResolver:
                     continue
                 if self._exceeds_max_size(filepath):
                     continue
-                if any(spec.match_file(filename) for spec in gitignore_specs):
+                if self._is_gitignored(filepath, False, gitignore_chain):
                     continue
                 if tool_ignore and tool_ignore.match_file(filename):
                     continue
@@ -150,9 +150,9 @@ class FileResolver:
 
         if self._config.respect_gitignore:
             root = walk_root if walk_root is not None else current_dir
-            for spec in self._get_gitignore_chain(current_dir, root):
-                if spec.match_file(dir_with_slash):
-                    return True
+            chain = self._get_gitignore_chain(current_dir, root)
+            if self._is_gitignored(current_dir / dirname, True, chain):
+                return True
 
         if tool_ignore and tool_ignore.match_file(dir_with_slash):
             return True
@@ -193,9 +193,34 @@ class FileResolver:
             self._gitignore_cache[directory] = load_gitignore(directory)
         return self._gitignore_cache[directory]
 
-    def _get_gitignore_chain(self, directory: Path, walk_root: Path) -> list[pathspec.PathSpec]:
-        """Collect all gitignore specs from walk_root down to directory (inclusive)."""
-        specs: list[pathspec.PathSpec] = []
+    @staticmethod
+    def _is_gitignored(
+        path: Path, is_dir: bool, chain: list[tuple[Path, pathspec.PathSpec]]
+    ) -> bool:
+        """
+        Apply a chain of `.gitignore` specs the way git does: each pattern is relative to
+        the directory of its file, and the deepest file with a matching pattern decides
+        (so a nested `.gitignore` can re-include with `!`).
+        """
+        resolved = path.parent.resolve() / path.name
+        for base, spec in reversed(chain):
+            try:
+                rel = resolved.relative_to(base).as_posix()
+            except ValueError:
+                continue
+            result = spec.check_file(rel + "/" if is_dir else rel)
+            if result.include is not None:
+                return bool(result.include)
+        return False
+
+    def _get_gitignore_chain(
+        self, directory: Path, walk_root: Path
+    ) -> list[tuple[Path, pathspec.PathSpec]]:
+        """
+        Collect all gitignore specs from walk_root down to directory (inclusive), each
+        with the directory its patterns are relative to.
+        """
+        specs: list[tuple[Path, pathspec.PathSpec]] = []
         resolved_root = walk_root.resolve()
         resolved_dir = directory.resolve()
         # Walk from root down to current directory
@@ -203,7 +228,7 @@ class FileResolver:
         while True:
             spec = self._get_gitignore(current)
             if spec is not None:
-                specs.append(spec)
+                specs.append((current, spec))
             if current == resolved_dir:
                 break
             try:
